@@ -80,6 +80,16 @@ def gen_pct(rng):
 
 def gen_direct(rng, count):
     cases = []
+    # per-head yields exactly 0 and tiny, each alone and together, on a herd that has every species
+    for kc, kp, kl in [(0.0, 86.0, None), (1.65, 0.0, None), (1.65, 86.0, 0.0), (0.0, 0.0, 0.0), (0.0, 0.0, None),
+                       (1e-9, 86.0, None), (1.65, 1e-9, None), (1.65, 86.0, 1e-9), (1e-9, 1e-9, 1e-9), (0.0, 1e-9, 250.0)]:
+        n = rng.choice([2, 3, 5])
+        herd = [{"type": t, "size": s, "slaughter": [rng.randint(1, 1 << 16) / 64.0 for _ in range(n)],
+                 "population": [rng.randint(1, 1 << 16) / 64.0 for _ in range(n)]} for t, s in SPECIES]
+        rng.shuffle(herd)
+        cases.append({"NMONTHS": 12, "herd": herd, "kind": "zero-or-tiny-yield", "ADD_MILK": True,
+                      "dist_meat": gen_pct(rng), "dist_milk": gen_pct(rng), "retail": gen_pct(rng),
+                      "kg_chicken": kc, "kg_pig": kp, "kg_large": kl, "milk_yield": rng.choice([0.0, 1e-9, 1099.6])})
     for i in range(count):
         n = rng.choice([1, 2, 3, 4, 5, 6, 8, 12])
         k = rng.choice([1, 1, 2, 3, 5, 8, 13, 21])
@@ -114,9 +124,9 @@ def gen_direct(rng, count):
         cases.append({
             "NMONTHS": 12, "herd": herd, "kind": kind, "ADD_MILK": rng.random() < 0.8,
             "dist_meat": gen_pct(rng), "dist_milk": gen_pct(rng), "retail": gen_pct(rng),
-            "kg_chicken": rng.choice([1.65, 3.0, 2.0, rng.uniform(0.5, 5)]),
-            "kg_pig": rng.choice([86.0, 93.0, rng.uniform(20, 150)]),
-            "kg_large": (None if rng.random() < 0.5 else rng.choice([200.0, 350.5, rng.uniform(50, 600)])),
+            "kg_chicken": rng.choice([1.65, 3.0, 2.0, rng.uniform(0.5, 5), 0.0, 1e-9]),
+            "kg_pig": rng.choice([86.0, 93.0, rng.uniform(20, 150), 0.0, 1e-9]),
+            "kg_large": (None if rng.random() < 0.5 else rng.choice([200.0, 350.5, rng.uniform(50, 600), 0.0, 1e-9])),
             "milk_yield": rng.choice([1099.6, 7565.5, rng.uniform(100, 12000), 0.0])})
     return cases
 
@@ -187,6 +197,9 @@ def gen_runs(ctx):
         ("BHR", opt()),                                   # no feed demand: rounds 1 and 2 skipped
         ("SGP", opt(**BASELINE)),                         # a single species
         ("USA", opt(cull="dont_eat_culled", waste="zero", shutoff="continued")),
+        ("SYR", opt()),                                   # the table gives 0 kg per pig, and the country has pigs
+        ("DEU", opt(kg_meat_per_pig=0)),                  # numeric overrides through the real option layer: a yield of
+        ("BRA", opt(kg_meat_per_chicken=0, NMONTHS=60)),  # exactly 0 must give exactly no meat from that species
         ("IND", opt(NMONTHS=48, waste="doubled_prices_in_country", meat_strategy="feed_only_ruminants",
                     kg_meat_per_large_animal=320.5, shutoff="short_delayed_shutoff")),
     ]
@@ -393,6 +406,9 @@ def run(ctx):
                 r3 = ev
             elif ev["ev"] == "opt" and cur is not None and cur >= 0:
                 rnd += 1
+                if cap.get("row"):
+                    ev = dict(ev)
+                    ev.update(cap["row"])      # yields of the country row / option, not the code's stored constants
                 h = herds[cur]
                 ctx.traces += 1
                 key = ("round", job["iso3"], json.dumps(job["option"], sort_keys=True), rnd)
